@@ -226,7 +226,7 @@ func propC14(c *Ctx) {
 	defer func() {
 		rti := c.Rule("throw-identity", "a Go error that already is a *RuntimeError re-enters the VM as the same object: an error raised by a script function keeps its identity when the function is called from Go", 1)
 		ruleThrowIdentity(c, rti)
-		rce := c.Rule("callback-err", "a library callback that records the error of the script function keeps the first error (no further call once one is recorded) in a variable local to the call", 4)
+		rce := c.Rule("callback-err", "a library callback that records the error of the script function keeps the first error (no further call once one is recorded) in a variable local to the call", 1)
 		ruleCallbackErr(c, rce)
 	}()
 	ri := c.Rule("child-init", "every VM field that run-time code reads and Run's prologue does not initialise is stored by the pool's acquire on every path (release zeroes the whole VM), and every Bytecode field run-time code reads is stored into the child's private Bytecode", 6)
@@ -596,7 +596,7 @@ func propC09(c *Ctx) {
 		ruleLockFirst(c, rlf, vf)
 		rao := c.Rule("aborted-own", "Aborted reports the abort flag of the VM it is called on, not another VM's", 1)
 		ruleAbortedOwn(c, rao, vf)
-		rce := c.Rule("callback-err", "the variable in which a library callback records an abort / error of the script function is local to the call: an aborted run leaves nothing behind that fails later calls", 4)
+		rce := c.Rule("callback-err", "the variable in which a library callback records an abort / error of the script function is local to the call: an aborted run leaves nothing behind that fails later calls", 1)
 		ruleCallbackErr(c, rce)
 	}()
 	// poll: an atomic Load of abort in a block that lies on a cycle and dominates the dispatch
